@@ -22,6 +22,8 @@ META = {
                   "blp-info of the format families) must fail on any damage that entry point rejects, wherever it is (header intact / body truncated, string block cut, ...); "
                   "every convert sub-command also runs as an identity conversion (from == to, an alias of the source version, auto-detected == target); the numeric selector "
                   "`blp convert --mipmap-level` runs at 0, the last stored level, one past it and 1000000 (out of range => exit != 0; in range => PNG dimensions = the library's for that level). "
+                  "Round 5 seeds: output pre-state `samelen` (a file of exactly the output's length, every byte different -- an older generation in a reused directory) for every producer; "
+                  "MPQ damage BY TABLE REGION (cut strictly inside the hash table / inside the block table with everything before it intact), the damaged archive in either argument position of `mpq compare`. "
                   "Round 5: the GLOBAL options (-q, -v, -vv) are a dimension of every sub-command (one succeeding and one failing run each, and half of the pipeline sample); "
                   "bulk mpq commands run on archives of 11/26/999/1000/1001/2001 tiny files (thorough: up to 10001) around the window / batch constants; `mpq rebuild` is judged "
                   "against the library on a source holding plain, encrypted, fix-key, multi-sector and special files with default flags, --verify and --skip-encrypted. "
@@ -47,7 +49,8 @@ def sig(b):
 def run(ctx, cases_override=None):
     ctx.mc("MC_Cli", cfg="MC_Cli", workers=4, timeout=600, heap="3g")
     ctx.mc("MC_Cli", cfg="MC_Cli_deviant", workers=4, timeout=600, heap="3g")
-    for cfg, inv, dev in (("MC_Cli_refuted", "LastTruthful", "ValidateDeviant"), ("MC_Cli_refuted2", "ExtractComplete", "ExtractKeepsStale")):
+    for cfg, inv, dev in (("MC_Cli_refuted", "LastTruthful", "ValidateDeviant"), ("MC_Cli_refuted2", "ExtractComplete", "ExtractKeepsStale"),
+                          ("MC_Cli_refuted3", "ExtractComplete", "ExtractSkipsSameLen")):
         rc, text = ctx.tlc("MC_Cli", cfg, workers=2, timeout=600, heap="2g", tag="refute-" + cfg)
         if f"Invariant {inv} is violated" not in text:
             raise core.ToolError(f"stage A: TLC did not refute {inv} for the deviation {dev}:\n" + core._tail(text, 15))
